@@ -38,6 +38,8 @@ def obligations(tier):
                       funcs=(IN + "InstrumentTrack.from_chart_lines", IN + "NoteEvent.from_parsed_data", IN + "Note.from_parsed_datas",
                              TR + "parse_data_from_chart_lines", TR + "build_events_from_data"),
                       bounds="token lines with symbolic ticks/lengths, S/E/garbage lines interleaved, full reference oracle"))
+    obs.append(Ob("C02.framing", "CH", "harness.h_chart", "framing", 300, funcs=("chartparse.chart.Chart._partition_lines_by_data_section",),
+                  bounds="3 sections x <=2 symbolic body lines of any length (blank lines included): each section parser receives exactly its own body lines, so no note line is lost to a neighbouring section"))
     return obs
 
 
